@@ -34,12 +34,15 @@ KINDS = ["inner_join", "join", "full_join"]
 
 U1 = [(0,), (1,), (2,), (3,), (None,)]
 U2 = [(a, b) for a in (0, 1, None) for b in ("a", "b", None)]
+# distinct keys that hash() cannot tell apart (-1 / -2, 0 / 2**61-1): uniqueness is about equality, not about hashes
+U1H = [(-1,), (-2,), (0,), (2 ** 61 - 1,), (1,), (None,)]
+U2H = [(a, b) for a in (-1, -2, None) for b in ("a", "b")]
 
 
 @st.composite
 def expect_case(draw, tier="quick"):
     nk = draw(st.sampled_from([1, 1, 2]))
-    uni = U1 if nk == 1 else U2
+    uni = (U1 if nk == 1 else U2) if draw(st.integers(0, 2)) else (U1H if nk == 1 else U2H)
     lu, ru = draw(st.booleans()), draw(st.booleans())
     mx = 7 if tier == "quick" else 10
 
